@@ -48,7 +48,10 @@ def exc_class(name):
     if not EXC:
         import lightstreamer_adapter.interfaces.data as idt
         EXC.update({'SubscribeError': idt.SubscribeError, 'FailureError': idt.FailureError, 'RuntimeError': RuntimeError,
-                    'DataProviderError': idt.DataProviderError, 'KeyError': KeyError})
+                    'DataProviderError': idt.DataProviderError, 'KeyError': KeyError,
+                    # user-defined exceptions whose instances are falsy (they define __len__ and hold nothing)
+                    'EmptyError': type('EmptyError', (Exception,), {'__len__': lambda self: 0}),
+                    'EmptySubscribeError': type('EmptySubscribeError', (idt.SubscribeError,), {'__bool__': lambda self: False})})
     return EXC[name]
 
 
@@ -238,7 +241,8 @@ def sx_outcome(name, out):
 def label_outcome(name, item, out):
     if isinstance(out, tuple) and out[0] == 'raise':
         cls = out[1]
-        c = [sym('lib'), sym(cls)] if cls in ('SubscribeError', 'FailureError', 'DataProviderError') else sym('foreign')
+        c = [sym('lib'), sym(cls)] if cls in ('SubscribeError', 'FailureError', 'DataProviderError') else \
+            [sym('usersub'), sym('SubscribeError')] if cls == 'EmptySubscribeError' else sym('foreign')
         text = '%s failed for %s' % (name, item)
         if cls == 'KeyError':
             text = repr(text)
